@@ -60,7 +60,7 @@ Theorem C10_paths_agree_blueprint : forall s e M c d ch b b',
 Proof. exact paths_agree_blueprint. Qed.
 
 Theorem C10_paths_agree_arrays : forall s e M c d ch arrs asr SRq,
-  el_lookup e c = Some ch -> ckind ch = KArr arrs asr -> seq_SR s = VNum SRq ->
+  el_lookup e c = Some ch -> ckind ch = KArr arrs asr -> asr = Some (VNum SRq) ->
   prepare_chan s e M (c, d) = Ok (c, mkCh (KArr (delay_arrays arrs d M SRq) asr) (cflags ch)).
 Proof. exact paths_agree_arrays. Qed.
 
